@@ -92,7 +92,7 @@ class VariationalLatentVariable(LatentVariable):
     def __getstate__(self):
         # The KL term of the last call carries an autograd graph: it can neither be deep-copied nor does it belong to
         # the state of the model. The next call computes it again.
-        state = self.__dict__.copy()
+        state = dict(super().__getstate__())  # (torch's own __getstate__ drops what cannot be pickled)
         state["_added_loss_terms"] = {name: None for name in self._added_loss_terms}
         return state
 
